@@ -88,8 +88,12 @@ TEXT["C02"] = dict(
          "quote/backslash/newline; documentation comments are single closed comment tokens when the text has no '*/'; with "
          "kernel-checked counterexamples for each hypothesis (the corresponding known findings)." + GEN_TIE +
          " 'Parses' is decided on the implementation's files by tie/stubparse.py, a recogniser written from the Safe-DS grammar.",
-    note=TRUST + " The syntactic half (brackets/braces closed by construction of the printer) is not a Lean theorem: it rests on "
-         "the recogniser accepting every file of every S-B/S-E case. The Safe-DS reference parser is not installed.")
+    note=TRUST + " The structural half is Theorems/C02a: a small scanner (Spec/Balance.lean: code/string/comment/back-quote modes, a "
+         "stack of open brackets, '->' recognised) and the theorems that every emitted type, parameter list, function, attribute, "
+         "enum, documentation comment, TODO block and class (any nesting, inlined private bases) is balanced under the lexical "
+         "hypotheses; the module level is _partial (it assumes the final import paths are bracket-free). That the scanner's notion "
+         "of balance agrees with the Safe-DS grammar rests on the recogniser tie/stubparse.py accepting every file of every "
+         "S-B/S-E case; the Safe-DS reference parser is not installed.")
 TEXT["C05"] = dict(
     technique="Lean 4 proof (mutual structural induction: rendered type = compositional specification, totality, union normalisation laws) + S-B/S-E",
     text="Proof: Theorems/C05 proves that for EVERY API type, generator state, module and position the rendered text equals "
